@@ -56,7 +56,7 @@ theorem iterblocks_final (p : Padder) (st : PadState) (m : List Nat) (kw : Optio
         (if (out.drop p.blocklen).length > 0 then [out.take p.blocklen, out.drop p.blocklen] else [out.take p.blocklen]) := by
   unfold Padder.iterblocks
   simp only [hpf] at hlast
-  simp only [hpf, Bool.false_eq_true, if_false, Nat.not_lt.2 hlen, Bool.not_true, false_and, if_true, hlast]
+  simp only [hpf, Bool.false_eq_true, if_false, Nat.not_lt.2 hlen, Bool.not_true, false_and, if_true, hlast, Padder.finishTail]
   split <;> simp [Padder.loopYields, List.map_map, Function.comp_def]
 
 theorem groups_one_or_two {α} (n : Nat) (hn : 0 < n) (l : List α) (h : l.length = n ∨ l.length = 2 * n) :
